@@ -386,8 +386,10 @@ Definition agree_body (b : body) : bool :=
       | Ok (cells0, o) =>
           match tucker_mode_dot_method_h Zops th0 cells0 o cp x m kd, e with
           | Ok (th', cells', o'), Ok (er, eo, valid) =>
-              zobs_eqb ztk_dense_eqb (tk_observe th' cells' o') er && zobs_eqb ztk_struct_eqb (tk_observe th' cells' o) eo &&
-              Bool.eqb (let '(c, fs) := tobj_read th' cells' o in tucker_okb c fs) valid
+              zobs_eqb ztk_dense_eqb (tk_observe th' cells' o') er &&
+              ((zobs_eqb ztk_struct_eqb (tk_observe th' cells' o) eo && Bool.eqb (let '(c, fs) := tobj_read th' cells' o in tucker_okb c fs) valid)
+               (* copy=False allows the in-place update but does not demand it: an untouched operand is accepted too *)
+               || (negb cp && zobs_eqb ztk_struct_eqb (tk_observe th0 cells0 o) eo && valid))
           | Err, Err => true
           | _, _ => false
           end
